@@ -42,6 +42,7 @@ import (
 	"os"
 	"os/exec"
 	"path/filepath"
+	"runtime"
 	"strconv"
 	"strings"
 	"sync"
@@ -68,6 +69,8 @@ type Config struct {
 	QWins     int  `json:"qwin_s"`
 	SlackMs   int  `json:"slack_ms"`
 	Procs     int  `json:"gomaxprocs,omitempty"` // GOMAXPROCS of the child (0 = default)
+	Flows     int  `json:"flows,omitempty"`      // 2 = two flows, each with its own Queue processor (requests name "a"/"b")
+	SameQuota bool `json:"same_quota,omitempty"` // both Queue processors on one quota id
 }
 
 type Step struct {
@@ -76,6 +79,7 @@ type Step struct {
 	ID    string `json:"id,omitempty"`
 	Prio  string `json:"prio,omitempty"`
 	Ms    int    `json:"ms,omitempty"`
+	Flow  string `json:"flow,omitempty"` // arrive: "a" | "b" with two flows
 }
 
 type Scenario struct {
@@ -246,6 +250,10 @@ processors:
           p5: 5
           p6: 6
           p7: 7
+          p8: 8
+          p9: 9
+          p10: 10
+          p11: 11
   TooMany:
     processor: GenerateResponse
     parameters:
@@ -306,12 +314,46 @@ flow:
         interval: %d
         interval_unit: second
 `, c.QMax, c.QWins)
-	if err := os.WriteFile(filepath.Join(dir, "flows", "flow.yaml"), []byte(flow), 0o644); err != nil {
-		vh.Die("write flow: %v", err)
+	flows := map[string]string{"flow.yaml": flow}
+	if c.Flows == 2 {
+		// two flows, each with its own Queue processor; on one quota id or on two
+		mk := func(sfx, quotaID string) string {
+			f := strings.ReplaceAll(flow, "name: QueueFlow", "name: QueueFlow"+sfx)
+			f = strings.ReplaceAll(f, "url: api.test/*", "url: api.test/"+strings.ToLower(sfx)+"/*")
+			f = strings.ReplaceAll(f, "TheQueue", "TheQueue"+sfx)
+			f = strings.ReplaceAll(f, "TooMany", "TooMany"+sfx)
+			return strings.ReplaceAll(f, "value: QueueQuota", "value: "+quotaID)
+		}
+		if c.SameQuota {
+			flows = map[string]string{"flow_a.yaml": mk("A", "QueueQuota"), "flow_b.yaml": mk("B", "QueueQuota")}
+		} else {
+			flows = map[string]string{"flow_a.yaml": mk("A", "QueueQuotaA"), "flow_b.yaml": mk("B", "QueueQuotaB")}
+			qa := strings.ReplaceAll(strings.ReplaceAll(quota, "id: QueueQuota", "id: QueueQuotaA"), "url: api.test/*", "url: api.test/a/*")
+			qb := strings.ReplaceAll(strings.ReplaceAll(quota, "id: QueueQuota", "id: QueueQuotaB"), "url: api.test/*", "url: api.test/b/*")
+			quota = qa + strings.TrimPrefix(qb, "quotas:\n")
+		}
+	}
+	for name, f := range flows {
+		if err := os.WriteFile(filepath.Join(dir, "flows", name), []byte(f), 0o644); err != nil {
+			vh.Die("write flow: %v", err)
+		}
 	}
 	if err := os.WriteFile(filepath.Join(dir, "quotas", "quota.yaml"), []byte(quota), 0o644); err != nil {
 		vh.Die("write quota: %v", err)
 	}
+}
+
+// gid: the id of the calling goroutine (the yield points of the processing loops carry no processor name: with two Queue
+// processors the recording tells the loops apart by their goroutine)
+func gid() int {
+	var b [40]byte
+	n := runtime.Stack(b[:], false)
+	f := strings.Fields(string(b[:n]))
+	if len(f) > 1 {
+		g, _ := strconv.Atoi(f[1])
+		return g
+	}
+	return 0
 }
 
 // ---------------------------------------------------------------------------- arbiter rounds
@@ -420,6 +462,7 @@ func child(scPath, tracePath string) {
 	ctx, cancel := context.WithCancel(context.Background())
 	context_manager.Get().WithContext(ctx)
 
+	twoFlows := sc.Config.Flows == 2
 	verifhook.SetSink(func(point string, kv ...any) {
 		if !strings.HasPrefix(point, "q.") && !strings.HasPrefix(point, "mq.") {
 			return
@@ -452,6 +495,9 @@ func child(scPath, tracePath string) {
 				return
 			}
 			ev["ev"] = name
+		}
+		if twoFlows {
+			ev["g"] = gid()
 		}
 		gatePoint := point
 		if point == "q.before_signal" {
@@ -573,15 +619,24 @@ func child(scPath, tracePath string) {
 			answered[st.ID] = ch
 			arrivedAt[st.ID] = time.Now()
 			mu.Unlock()
+			url := "api.test/x"
+			if st.Flow != "" {
+				url = "api.test/" + st.Flow + "/x"
+			}
+			flowName := st.Flow
 			go func(id, prio string) {
 				api := stream_types.NewRequestAPIStream(lunar_messages.OnRequest{
-					ID: id, SequenceID: id, Method: "GET", Scheme: "https", URL: "api.test/x",
+					ID: id, SequenceID: id, Method: "GET", Scheme: "https", URL: url,
 					Headers: map[string]string{"x-prio": prio},
 				}, lunar_context.NewMemoryState[[]byte]())
 				acts := &stream_config.StreamActions{
 					Request: &stream_config.RequestStream{}, Response: &stream_config.ResponseStream{},
 				}
-				tr.add(vh.Ev{"ev": "arrive", "id": id, "prio": prioNum(prio)}, true)
+				av := vh.Ev{"ev": "arrive", "id": id, "prio": prioNum(prio)}
+				if flowName != "" {
+					av["flow"] = flowName
+				}
+				tr.add(av, true)
 				err := stream.ExecuteFlow(api, acts)
 				out := "allowed"
 				if err != nil {
